@@ -45,7 +45,7 @@ func TestVerifC07RegistryLoginStorm(t *testing.T) {
 			w.step(c07Op{"accept", 0, -1})
 			w.step(c07Op{"login", 0, 0})
 		}
-		g := &c07CloseGate{release: make(chan struct{}), reg: w.sm.clientRegistry}
+		g := &c07CloseGate{release: make(chan struct{}), reg: w.sm.GetClientRegistry()}
 		g.armed.Store(true)
 		// all handshakes are first lined up in the (gated) write of their response, then let go
 		// together, so that they reach the registry update at the same moment
@@ -139,7 +139,7 @@ func TestVerifC07RegistryLoginStorm(t *testing.T) {
 		w.reap()
 		w.check(bar)
 		survivors := 0
-		for _, k := range w.sm.clientRegistry.ListAuthenticated() {
+		for _, k := range w.sm.GetClientRegistry().ListAuthenticated() {
 			if k.ClientID == w.clients[0] {
 				survivors++
 			}
@@ -177,7 +177,7 @@ func c07StormDirect(t *testing.T, run *vk.Run, rd, m int, viaHandshake bool) {
 			k.SetClientID(a) // what the auth handler does before the registry is updated
 			k.SetAuthenticated(true)
 		}
-		if _, err := w.sm.clientRegistry.UpdateAuthExclusive(c.connID, a, ""); err == nil {
+		if _, err := w.sm.GetClientRegistry().UpdateAuthExclusive(c.connID, a, ""); err == nil {
 			c.ctlAs.Store(a)
 		}
 	}
@@ -227,7 +227,7 @@ func c07StormDirect(t *testing.T, run *vk.Run, rd, m int, viaHandshake bool) {
 	w.reap()
 	w.check(bar)
 	survivors := 0
-	for _, k := range w.sm.clientRegistry.ListAuthenticated() {
+	for _, k := range w.sm.GetClientRegistry().ListAuthenticated() {
 		if k.ClientID == a {
 			survivors++
 		}
